@@ -205,7 +205,7 @@ def h_tasks(ctx, prog, lowprio=False):
         if ok_shape:
           if rv[0]: ctx.check('task %d step %d: woken with exactly its ready fd' % (ti, si), list(rv[0]) == ['fd%d' % ti] and not rv[1] and not rv[2])
           else: ctx.check('task %d step %d: timed-out wait not resumed early' % (ti, si), d is not None and x[2] >= t0 + d)
-  if all(k in ('zero', 'sleep_past') for kinds in prog for k in kinds) and len(prog) == 2 and len(prog[0]) == len(prog[1]):
+  if not lowprio and all(k in ('zero', 'sleep_past') for kinds in prog for k in kinds) and len(prog) == 2 and len(prog[0]) == len(prog[1]):     # (tasks below priority 1 are picked by lot: no turn-taking there)
     # both tasks are runnable all the time: the scheduler alternates between them - a task that yields (also by an overdue sleep) waits for
     # the other one's step before it gets its next slice
     order = [x[0] for x in trace]
